@@ -1126,6 +1126,8 @@ def check_single_section(rep, fl, rule, fns, what):
 
 def check_C09(rep, fl):
     check_only_update(rep, fl)
+    # an entry that a conditional write has just rewritten without TTL stays: the sweep re-checks the stored deadline
+    check_sweeper(rep, fl)
     # "on a resident key it behaves as an update of value and cost": the queued Update always re-charges
     import props_cache
     props_cache.check_arms_reach_policy(rep, fl)
